@@ -44,6 +44,8 @@ type SeqSys[T comparable] struct {
 	// JSONs: arrays (universe indices, in ToJSON order) offered as FromJSON operations, so that the
 	// search also starts from loaded states (a second way to fill the container)
 	JSONs [][]int
+	// JSONTexts: raw inputs (null entries) whose denotation is fixed by decoding into a fresh slice
+	JSONTexts []string
 }
 
 func (s *SeqSys[T]) Name() string {
@@ -124,6 +126,9 @@ func (b *seqBox[T]) Ops() []Op {
 		if b.a.capa > 0 || len(t) <= b.sys.N {
 			ops = append(ops, op("fromjson", ji))
 		}
+	}
+	for ti := range b.sys.JSONTexts {
+		ops = append(ops, op("fromjsontext", ti))
 	}
 	return ops
 }
@@ -210,8 +215,13 @@ func (b *seqBox[T]) Do(o Op) *Viol {
 	case "clear":
 		b.a.clear()
 		b.ref = nil
-	case "fromjson":
-		data := b.jsonText(o.A[0])
+	case "fromjson", "fromjsontext":
+		data := []byte(nil)
+		if o.N == "fromjson" {
+			data = b.jsonText(o.A[0])
+		} else {
+			data = []byte(b.sys.JSONTexts[o.A[0]])
+		}
 		if err := b.a.obj.(interface{ FromJSON([]byte) error }).FromJSON(data); err != nil {
 			return viol(tag("C05", "C12"), "mismatch", "FromJSON(%s) failed: %v", data, err)
 		}
